@@ -2781,6 +2781,11 @@ where
         raw_packet: RawPacket,
     ) -> Vec<GenericEvent<PacketIdType>> {
         let mut events = Vec::new();
+        if self.status == ConnectionStatus::Connected {
+            // A second CONNACK on an established connection must not touch the session
+            Self::handle_v3_1_1_error(MqttError::ProtocolError, &mut events);
+            return events;
+        }
 
         match v3_1_1::Connack::parse(raw_packet.data_as_slice()) {
             Ok((packet, _consumed)) => {
@@ -2809,6 +2814,11 @@ where
         raw_packet: RawPacket,
     ) -> Vec<GenericEvent<PacketIdType>> {
         let mut events = Vec::new();
+        if self.status == ConnectionStatus::Connected {
+            // A second CONNACK on an established connection must not touch the session
+            self.handle_v5_0_error(MqttError::ProtocolError, &mut events);
+            return events;
+        }
 
         match v5_0::Connack::parse(raw_packet.data_as_slice()) {
             Ok((packet, _consumed)) => {
